@@ -1403,7 +1403,11 @@ mzd_t *mzd_concat(mzd_t *C, mzd_t const *A, mzd_t const *B) {
   for (rci_t i = 0; i < A->nrows; ++i) {
     word *dst_truerow = mzd_row(C, i);
     word const *src_truerow = mzd_row_const(A, i);
-    for (wi_t j = 0; j < A->width; ++j) { dst_truerow[j] = src_truerow[j]; }
+    for (wi_t j = 0; j < A->width - 1; ++j) { dst_truerow[j] = src_truerow[j]; }
+    if (A->width > 0) {
+      wi_t const j   = A->width - 1;
+      dst_truerow[j] = (dst_truerow[j] & ~A->high_bitmask) | (src_truerow[j] & A->high_bitmask);
+    }
   }
 
   for (rci_t i = 0; i < B->nrows; ++i) {
@@ -1427,16 +1431,25 @@ mzd_t *mzd_stack(mzd_t *C, mzd_t const *A, mzd_t const *B) {
     m4ri_die("mzd_stack: C has wrong dimension!\n");
   }
 
+  word const mask_end = C->high_bitmask;
   for (rci_t i = 0; i < A->nrows; ++i) {
     word const *src_truerow = mzd_row_const(A, i);
     word *dst_truerow = mzd_row(C, i);
-    for (wi_t j = 0; j < A->width; ++j) { dst_truerow[j] = src_truerow[j]; }
+    for (wi_t j = 0; j < A->width - 1; ++j) { dst_truerow[j] = src_truerow[j]; }
+    if (A->width > 0) {
+      wi_t const j   = A->width - 1;
+      dst_truerow[j] = (dst_truerow[j] & ~mask_end) | (src_truerow[j] & mask_end);
+    }
   }
 
   for (rci_t i = 0; i < B->nrows; ++i) {
     word *dst_truerow = mzd_row(C, A->nrows + i);
     word const *src_truerow = mzd_row_const(B, i);
-    for (wi_t j = 0; j < B->width; ++j) { dst_truerow[j] = src_truerow[j]; }
+    for (wi_t j = 0; j < B->width - 1; ++j) { dst_truerow[j] = src_truerow[j]; }
+    if (B->width > 0) {
+      wi_t const j   = B->width - 1;
+      dst_truerow[j] = (dst_truerow[j] & ~mask_end) | (src_truerow[j] & mask_end);
+    }
   }
 
   __M4RI_DD_MZD(C);
@@ -1617,7 +1630,8 @@ mzd_t *mzd_submatrix(mzd_t *S, mzd_t const *M, rci_t const startrow, rci_t const
       for (rci_t x = startrow, i = 0; i < nrows; ++i, ++x) {
         /* process remaining bits */
         word temp                      = mzd_row_const(M, x)[startword + ncols / m4ri_radix] & mask_end;
-        mzd_row(S, i)[ncols / m4ri_radix] = temp;
+        word *dst                      = mzd_row(S, i) + ncols / m4ri_radix;
+        *dst                           = (*dst & ~mask_end) | temp;
       }
     }
   } else {
@@ -1866,10 +1880,10 @@ mzd_t *mzd_extract_l(mzd_t *L, mzd_t const *A) {
   if (L != NULL) { assert(L->nrows == k && L->ncols == k); }
   L = mzd_submatrix(L, A, 0, 0, k, k);
   for (rci_t i = 0; i < L->nrows - 1; i++) {
-    word *row = mzd_row(L, i);
-    if (m4ri_radix - (i + 1) % m4ri_radix)
-      mzd_clear_bits(L, i, i + 1, m4ri_radix - (i + 1) % m4ri_radix);
-    for (wi_t j = (i / m4ri_radix + 1); j < L->width; j++) { row[j] = 0; }
+    /* clear columns i+1 .. ncols-1 and nothing beyond them (L may be a window) */
+    for (rci_t j = i + 1; j < L->ncols; j += m4ri_radix - j % m4ri_radix) {
+      mzd_clear_bits(L, i, j, MIN(m4ri_radix - j % m4ri_radix, L->ncols - j));
+    }
   }
   return L;
 }
